@@ -56,6 +56,29 @@ fn check(t: &TextCase, obs: &mut Obs) {
     obs.class_if(t.lh.0 == 1 && t.lh.1 != 100, "line-height-percent");
     obs.class_if(chh % 2 == 0 && t.baseline == 2, "middle-baseline-even-height");
 
+    // the constructors are different entry points to the same settings
+    {
+        use embedded_graphics::text::{Text, TextStyleBuilder};
+        let cs = t.style::<C>();
+        let full = t.build::<C>();
+        if t.align == 0 && t.lh == (1, 100) {
+            let a = Text::with_baseline(&t.text, pos, cs, baseline(t.baseline));
+            if a != full {
+                obs.fail("constructors-agree", format!("Text::with_baseline gives text_style {:?}, with_text_style {:?}", a.text_style, full.text_style));
+            }
+        }
+        if t.baseline == 3 && t.lh == (1, 100) {
+            let a = Text::with_alignment(&t.text, pos, cs, align(t.align));
+            let b = Text::with_text_style(&t.text, pos, cs, TextStyleBuilder::new().alignment(align(t.align)).build());
+            if a != full || b != full {
+                obs.fail("constructors-agree", format!("Text::with_alignment gives {:?}, builder default {:?}, explicit {:?}", a.text_style, b.text_style, full.text_style));
+            }
+            if t.align == 0 && Text::new(&t.text, pos, cs) != full {
+                obs.fail("constructors-agree", "Text::new differs from the explicit default text style".to_string());
+            }
+        }
+    }
+
     // \r\n behaves exactly like \n
     let lf = t.text.replace("\r\n", "\n");
     if lf != t.text {
